@@ -111,7 +111,20 @@ def chunked(elem, max_len, chunk=6):
 
 
 def case_strategy(weights, max_ops=40):
-    return st.fixed_dictionaries({'classes': classes_strategy(), 'ops': ops_strategy(weights, max_ops)})
+    # idgen: which id_generator_factory the world is built with (0/1: the default count(1); 2: count(3);
+    # 3: single letters, colliding with the explicit str id 'a')
+    return st.fixed_dictionaries({'classes': classes_strategy(), 'ops': ops_strategy(weights, max_ops),
+                                  'idgen': st.integers(0, 3)})
+
+
+def make_world(case):
+    import itertools
+    kind = case.get('idgen', 0)
+    if kind == 2:
+        return desper.World(id_generator_factory=lambda: itertools.count(3))
+    if kind == 3:
+        return desper.World(id_generator_factory=lambda: iter('abcdefghijklmnopqrstuvwxyzABCDEFGHIJKLMNOPQRSTUVWXYZ'))
+    return desper.World()
 
 
 # ----------------------------------------------------------------------------------------------------------
@@ -127,7 +140,7 @@ class Run:
         self.log = []
         self.classes, self.eff_bases = build_dag(case['classes'])
         self.ev = [getattr(c, '__events__', {}) for c in self.classes]
-        self.world = desper.World()
+        self.world = make_world(case)
         self.sentinel = None
         self.attached = {}
         self.pending = []           # ids awaiting deletion, in request order, python-equality de-duplicated
